@@ -286,6 +286,11 @@ void ParameterList::setParameter(size_t index, const Parameter& param)
 {
   if (index >= size())
     throw IndexOutOfBoundsException("ParameterList::setParameter.", index, 0, size());
+  for (size_t i = 0; i < size(); ++i)
+  {
+    if (i != index && parameters_[i]->getName() == param.getName())
+      throw ParameterException("ParameterList::setParameter. Parameter with name '" + param.getName() + "' already exists.", &param);
+  }
   parameters_[index] = shared_ptr<Parameter>(param.clone());
 }
 
